@@ -63,6 +63,11 @@ func GetShortFieldID(
 		if err != nil {
 			return 0, errors.Join(err, iter.Close())
 		}
+		if key.CollectionShortID != collectionShortID {
+			// The prefix has no trailing separator: it also matches the entries of every
+			// collection whose short id starts with the same digits (1 -> 10, 11, ...).
+			continue
+		}
 
 		value, err := iter.Value()
 		if err != nil {
